@@ -29,6 +29,14 @@ pub struct World<'a> {
     pub cur_base: u64,
     /// lowest height the history tree of each state is expected to hold (0 unless the lineage was fabricated at a height)
     pub bases: Vec<u64>,
+    /// per state: the faucet transactions accepted on the way to it (bookkeeping of the workload's own history, a plain fact:
+    /// "this transaction was accepted at an ancestor of this state")
+    pub anc_faucets: Vec<std::sync::Arc<std::collections::BTreeSet<TxHash>>>,
+    /// parent of the next pushed state and the faucets accepted by the step that creates it
+    pub parent_hint: Option<usize>,
+    pub add_hint: Vec<TxHash>,
+    /// the state against which tx_json reports `seenFaucet`
+    pub ctx_sid: Option<usize>,
 }
 
 pub fn res_s<T>(r: &std::thread::Result<Result<T, StateError>>) -> String {
@@ -48,10 +56,20 @@ pub fn action_j(a: &Option<ProposerAction>) -> J {
 
 impl<'a> World<'a> {
     pub fn new(out: &'a mut Out, tag: &str) -> Self {
-        World { db: Database::new(InMemoryCas::default()), states: vec![], names: Names::default(), out, events: 0, tag: tag.to_string(), cur_base: 0, bases: vec![] }
+        World { db: Database::new(InMemoryCas::default()), states: vec![], names: Names::default(), out, events: 0, tag: tag.to_string(), cur_base: 0, bases: vec![], anc_faucets: vec![], parent_hint: None, add_hint: vec![], ctx_sid: None }
     }
 
     fn push(&mut self, s: St) -> usize {
+        let mut set = match self.parent_hint.take() {
+            Some(p) => self.anc_faucets[p].clone(),
+            None => Default::default(),
+        };
+        if !self.add_hint.is_empty() {
+            let mut m = (*set).clone();
+            m.extend(self.add_hint.drain(..));
+            set = std::sync::Arc::new(m);
+        }
+        self.anc_faucets.push(set);
         self.states.push(s);
         let b = self.cur_base;
         self.bases.push(b);
@@ -163,7 +181,12 @@ impl<'a> World<'a> {
         } else {
             json!({"decoded": false, "difficulty": [], "parsed": false, "proof": "none"})
         };
-        lj::tx_j(tx, &facts, mint)
+        let mut j = lj::tx_j(tx, &facts, mint);
+        // history fact: this very faucet was accepted at an ancestor of the state the batch is applied to
+        if let Some(sid) = self.ctx_sid {
+            j["seenFaucet"] = json!(tx.kind == TxKind::Faucet && self.anc_faucets[sid].contains(&tx.hash_nosigs()));
+        }
+        j
     }
 
     /// byte strings behind the hex / denomination names of the coins the batch spends, and the past headers a mint refers to
@@ -267,7 +290,9 @@ impl<'a> World<'a> {
         let pre_u = self.unsealed(sid).clone();
         let pre = self.obs_u(&pre_u);
         let lh = self.last_header(&pre_u);
+        self.ctx_sid = Some(sid);
         let txj: Vec<J> = txs.iter().map(|t| self.tx_json(&pre_u, txs, t)).collect();
+        self.ctx_sid = None;
         let (bytes_of, hdrs) = self.batch_facts(&pre_u, txs);
         let mut work = pre_u.clone();
         let r = catch_unwind(AssertUnwindSafe(|| {
@@ -287,6 +312,10 @@ impl<'a> World<'a> {
         let after = if res == "panic" { pre_u.clone() } else { work };
         let post = self.obs_u(&after);
         let ok = res == "ok";
+        self.parent_hint = Some(sid);
+        if ok {
+            self.add_hint = txs.iter().filter(|t| t.kind == TxKind::Faucet).map(|t| t.hash_nosigs()).collect();
+        }
         let nid = self.push(St::U(after));
         let claims = Self::agree_claims(&extra, &res, &post);
         self.emit(json!({"ev": "batch", "preid": sid, "postid": nid, "pre": pre, "txs": txj, "lastHeader": lj::header_j(&lh), "threads": threads,
@@ -319,6 +348,7 @@ impl<'a> World<'a> {
         match r {
             Ok(s) => {
                 let post = self.obs_s(&s);
+                self.parent_hint = Some(sid);
                 let nid = self.push(St::S(s));
                 let mut claims = Self::root_claims(&post);
                 claims.extend(Self::agree_claims(&extra, "ok", &post));
@@ -342,6 +372,7 @@ impl<'a> World<'a> {
         match r {
             Ok(u) => {
                 let post = self.obs_u(&u);
+                self.parent_hint = Some(sid);
                 let nid = self.push(St::U(u));
                 self.emit(json!({"ev": "next", "preid": sid, "postid": nid, "pre": pre, "res": "ok", "post": post}));
                 nid
@@ -372,7 +403,9 @@ impl<'a> World<'a> {
         let (txj, lh, basis_obs, bytes_of, hdrs) = match &basis {
             Some(b) => {
                 let lh = self.last_header(b);
+                self.ctx_sid = Some(sid);
                 let txj: Vec<J> = txs.iter().map(|t| self.tx_json(b, &txs, t)).collect();
+                self.ctx_sid = None;
                 let (bo, hd) = self.batch_facts(b, &txs);
                 (txj, lj::header_j(&lh), self.obs_u(b), bo, hd)
             }
@@ -391,6 +424,8 @@ impl<'a> World<'a> {
         let (post, nid) = match r {
             Ok(Ok(ns)) => {
                 let p = self.obs_s(&ns);
+                self.parent_hint = Some(sid);
+                self.add_hint = txs.iter().filter(|t| t.kind == TxKind::Faucet).map(|t| t.hash_nosigs()).collect();
                 (p, self.push(St::S(ns)))
             }
             _ => (pre.clone(), sid),
@@ -435,6 +470,7 @@ impl<'a> World<'a> {
         let t = S::from_block(&blk, &s.raw_stakes(), &self.db);
         self.cur_base = h - 1;
         let post = self.obs_s(&t);
+        self.parent_hint = Some(sid);
         let nid = self.push(St::S(t));
         self.emit(json!({"ev": "jump", "preid": sid, "postid": nid, "pre": pre, "res": "ok", "post": post, "to": h}));
         nid
@@ -473,6 +509,7 @@ impl<'a> World<'a> {
         match r {
             Ok(t) => {
                 let post = self.obs_s(&t);
+                self.parent_hint = Some(sid);
                 let nid = self.push(St::S(t));
                 self.emit(json!({"ev": "restart", "preid": sid, "postid": nid, "pre": pre, "res": "ok", "post": post}));
                 nid
